@@ -57,7 +57,7 @@ Theorem C17_contains_is_gamma : forall c s, contains c s = true <->
 Proof. exact contains_is_gamma. Qed.
 Print Assumptions C17_contains_is_gamma.
 
-(* B1'. The transcribed add_vertex adds exactly the new vertex (vertex numbering well formed: no edge touches a slot that
+(* B1a. The transcribed add_vertex adds exactly the new vertex (vertex numbering well formed: no edge touches a slot that
    was not handed out yet). *)
 Theorem C17_add_vertex_spec : forall (c : cplx) (t : simplex), wf_slots c ->
   contains (add_vertex c) t = contains c t || seqb t [slots c].
@@ -66,7 +66,7 @@ Print Assumptions C17_add_vertex_spec.
 Example C17_wf_slots_instance : wf_slots hollow_tetrahedron.
 Proof. exact wf_slots_instance. Qed.
 
-(* B1''. The transcribed add_edge adds exactly the edge (and registers as blockers the triangles it would close): for a missing
+(* B1b. The transcribed add_edge adds exactly the edge (and registers as blockers the triangles it would close): for a missing
    edge ab of a state whose blockers have >= 3 distinct vertices and whose edges are stored as (smaller, larger). *)
 Theorem C17_add_edge_spec : forall (c : cplx) (a b : Z) (t : simplex),
   a <> b -> has_edge c a b = false -> wf_blk c -> wf_edg c -> inc t ->
@@ -79,6 +79,20 @@ Example C17_add_edge_hypotheses_instance :
   has_edge c 0 4 = false /\ wf_blk c /\ wf_edg c /\ inc [0; 4] /\ contains (add_edge c 0 4) [0; 4] = true /\
   contains (add_edge (add_edge c 0 4) 1 4) [0; 1; 4] = false.
 Proof. exact add_edge_hypotheses_instance. Qed.
+
+(* B1c. The transcribed add_edge_without_blockers adds the edge ab and exactly the vertex lists containing a and b whose
+   faces without a and without b are simplices - this is spec_fill of C17_Model.v; no blocker passes through a and b. *)
+Theorem C17_add_edge_without_blockers_spec : forall (c : cplx) (a b : Z) (t : simplex),
+  a <> b -> has_edge c a b = false -> wf_blk c -> (forall beta, In beta (blk c) -> ~ (In a beta /\ In b beta)) -> NoDup t ->
+  contains (add_edge_without_blockers c a b) t
+  = contains c t || (smem a t && smem b t && contains c (sremove a t) && contains c (sremove b t)).
+Proof. exact add_edge_without_blockers_spec. Qed.
+Print Assumptions C17_add_edge_without_blockers_spec.
+Example C17_add_edge_without_blockers_instance :
+  let c := remove_star_edge 3 complete4 0 1 in
+  has_edge c 0 1 = false /\ wf_blk c /\ (forall beta, In beta (blk c) -> ~ (In 0 beta /\ In 1 beta)) /\
+  contains c [0; 1; 2; 3] = false /\ contains (add_edge_without_blockers c 0 1) [0; 1; 2; 3] = true.
+Proof. exact add_edge_without_blockers_instance. Qed.
 
 (* B2. The transcribed add_blocker deletes exactly the cofaces of the blocker, in every state. *)
 Theorem C17_add_blocker_spec : forall (c : cplx) (sigma t : simplex), (3 <= length sigma)%nat -> NoDup sigma ->
